@@ -212,7 +212,7 @@ func runWalk(c *Ctx) {
 				}
 			}
 		})
-		nb := 0
+		nb, nk := 0, 0
 		p.RegionInstrs(res, func(in ssa.Instruction) {
 			mu, ok := in.(*ssa.MapUpdate)
 			if !ok || core.TypeStr(mu.Map.Type()) != "map[interface{}]reflect.Value" {
@@ -225,6 +225,11 @@ func runWalk(c *Ctx) {
 			ta := assertOf(fr.Base)
 			id, isID := mu.Key.(*ssa.Call)
 			if ta == nil || !isID || core.CalleeName(id.Common()) != core.GVertexID || id.Common().Args[0] != ta.X {
+				// the entry is filled from the value of some vertex, but not of the vertex its key names
+				nk++
+				c.R.Add("BIND", fmt.Sprintf("resolver|entry-read-from-its-own-vertex#%d", nk), "resolver", p.InstrPos(mu), false,
+					"an argument-map entry that is filled from a vertex value is filled from the vertex its key identifies (a requirement is never bound to the value of a different vertex)",
+					"key "+core.Path(mu.Key)+" but value read from "+core.Path(fr.Base))
 				return
 			}
 			load, _ := mu.Value.(ssa.Instruction)
